@@ -71,12 +71,16 @@ package ddsketch
 //@   modifies footprint(s)
 
 // ---------------------------------------------------------------- quantiles
-// the rank looked up for quantile q: q*(W-1), not below 0
-//@ fun KRank(s *DDSketch, q float64) real := max(real(q) * (KCount(s) - 1.0), 0.0)
+// the rank looked up for quantile q: QRank(q, W) = max(q*(W-1), 0). The product is kept behind an uninterpreted
+// symbol (its defining equation is only used where the code computes it): callers see linear facts only.
+//@ fun QRank(q real, w real) real
+//@ axiom QRankDef(q real, w real)
+//@   ensures QRank(q, w) == max(q * (w - 1.0), 0.0)
 //@ lemma RankBound(q real, w real)
 //@   serves C01 C11
 //@   requires 0.0 <= q && q <= 1.0 && w > 0.0
-//@   ensures max(q * (w - 1.0), 0.0) < w && max(q * (w - 1.0), 0.0) >= 0.0 && (w >= 1.0 ==> max(q * (w - 1.0), 0.0) == q * (w - 1.0) && q * (w - 1.0) <= w - 1.0)
+//@   ensures QRank(q, w) < w && QRank(q, w) >= 0.0 && (w >= 1.0 ==> QRank(q, w) <= w - 1.0) using QRankDef(q, w)
+//@ fun KRank(s *DDSketch, q float64) real := QRank(real(q), KCount(s))
 
 // GetValueAtQuantile: q outside [0,1] (NaN included) or an empty sketch is refused. Otherwise, with
 // r = max(q*(W-1), 0) (W the total weight), the answer is the representative value of a bin of positive weight
@@ -96,7 +100,7 @@ package ddsketch
 //@   ensures positive-side: result1 == nil && old(KRank(s, quantile)) >= old(KZero(s) + KNegTot(s)) ==> old(KPosTot(s)) > 0.0 && (exists i int :: same(result, xf(mapping.MVal(s.IndexMapping, i))) && KPos(s, i) > 0.0 && in32(i) && store.SCum(s.positiveValueStore, i) > old(KRank(s, quantile) - KZero(s) - KNegTot(s)) && store.SCum(s.positiveValueStore, i - 1) <= old(KRank(s, quantile) - KZero(s) - KNegTot(s)))
 //@   ensures stable: footprintStable(s)
 //@   modifies footprint(s)
-//@   hint RankBound(real(quantile), old(KCount(s))), store.STotNonneg(s.positiveValueStore), store.STotNonneg(s.negativeValueStore)
+//@   hint QRankDef(real(quantile), old(KCount(s))), RankBound(real(quantile), old(KCount(s))), store.STotNonneg(s.positiveValueStore), store.STotNonneg(s.negativeValueStore)
 
 // ---------------------------------------------------------------- copy, clear, merge, reweight
 //@ func DDSketch.Copy
@@ -137,3 +141,44 @@ package ddsketch
 //@   ensures KInv(s) && s.IndexMapping == old(s.IndexMapping)
 //@   ensures stable: footprintStable(s)
 //@   modifies footprint(s)
+
+// ---------------------------------------------------------------- extremes
+// GetMaxValue: the representative value of the highest non-empty bin: largest positive index, else 0 when the
+// zero bucket is non-empty, else minus the value of the smallest negative index; an error exactly when empty.
+//@ func DDSketch.GetMaxValue
+//@   serves C12
+//@   requires KInv(s)
+//@   ensures untouched(s.positiveValueStore) && untouched(s.negativeValueStore)
+//@   ensures pure: KInv(s) && KSame(s) using store.SFrame(s.positiveValueStore), store.SFrame(s.negativeValueStore)
+//@   ensures empty: old(KCount(s)) == 0.0 ==> result1 != nil
+//@   ensures nonempty: old(KCount(s)) > 0.0 ==> result1 == nil
+//@   ensures positive: old(KPosTot(s)) > 0.0 ==> (exists i int :: same(result, xf(mapping.MVal(s.IndexMapping, i))) && in32(i) && (store.SExact(s.positiveValueStore) ==> KPos(s, i) > 0.0 && (forall k int :: k > i ==> KPos(s, k) == 0.0)))
+//@   ensures zero: old(KPosTot(s)) == 0.0 && old(KZero(s)) > 0.0 ==> same(result, xf(0.0))
+//@   ensures negative: old(KPosTot(s)) == 0.0 && old(KZero(s)) == 0.0 && old(KNegTot(s)) > 0.0 ==> (exists i int :: same(result, xf(0.0 - mapping.MVal(s.IndexMapping, i))) && in32(i) && (store.SExact(s.negativeValueStore) ==> KNeg(s, i) > 0.0 && (forall k int :: k < i ==> KNeg(s, k) == 0.0)))
+//@   hint store.STotNonneg(s.positiveValueStore), store.STotNonneg(s.negativeValueStore)
+
+//@ func DDSketch.GetMinValue
+//@   serves C12
+//@   requires KInv(s)
+//@   ensures untouched(s.positiveValueStore) && untouched(s.negativeValueStore)
+//@   ensures pure: KInv(s) && KSame(s) using store.SFrame(s.positiveValueStore), store.SFrame(s.negativeValueStore)
+//@   ensures empty: old(KCount(s)) == 0.0 ==> result1 != nil
+//@   ensures nonempty: old(KCount(s)) > 0.0 ==> result1 == nil
+//@   ensures negative: old(KNegTot(s)) > 0.0 ==> (exists i int :: same(result, xf(0.0 - mapping.MVal(s.IndexMapping, i))) && in32(i) && (store.SExact(s.negativeValueStore) ==> KNeg(s, i) > 0.0 && (forall k int :: k > i ==> KNeg(s, k) == 0.0)))
+//@   ensures zero: old(KNegTot(s)) == 0.0 && old(KZero(s)) > 0.0 ==> same(result, xf(0.0))
+//@   ensures positive: old(KNegTot(s)) == 0.0 && old(KZero(s)) == 0.0 && old(KPosTot(s)) > 0.0 ==> (exists i int :: same(result, xf(mapping.MVal(s.IndexMapping, i))) && in32(i) && (store.SExact(s.positiveValueStore) ==> KPos(s, i) > 0.0 && (forall k int :: k < i ==> KPos(s, k) == 0.0)))
+//@   hint store.STotNonneg(s.positiveValueStore), store.STotNonneg(s.negativeValueStore)
+
+// the batch query equals the single queries (or fails like the first failing one)
+//@ func DDSketch.GetValuesAtQuantiles
+//@   serves C12 C14
+//@   requires KInv(s)
+//@   ensures pure: KInv(s) && KSame(s)
+//@   ensures stable: footprintStable(s)
+//@   ensures ok: result1 == nil ==> len(result) == len(quantiles) && (old(KCount(s)) > 0.0 || len(quantiles) == 0) && (forall j int :: 0 <= j && j < len(quantiles) ==> quantiles[j] >= 0.0 && quantiles[j] <= 1.0)
+//@   ensures fail: result1 != nil ==> len(result) == 0 && (old(KCount(s)) == 0.0 || (exists j int :: 0 <= j && j < len(quantiles) && !(quantiles[j] >= 0.0 && quantiles[j] <= 1.0)))
+//@   modifies footprint(s)
+//@   loop 1 invariant KInv(s) && KSame(s) && footprintStable(s) && len(values) == len(quantiles) && fresh(arr(values)) && quantiles == old(quantiles)
+//@   loop 1 invariant (old(KCount(s)) > 0.0 || $i1 == 0) && (forall j int :: 0 <= j && j < $i1 ==> quantiles[j] >= 0.0 && quantiles[j] <= 1.0)
+//@   loop 1 invariant forall j int :: 0 <= j && j < len(quantiles) ==> same(quantiles[j], old(quantiles[j]))
+//@   hint store.STotNonneg(s.positiveValueStore), store.STotNonneg(s.negativeValueStore)
